@@ -190,7 +190,9 @@ var contentShapes = append(headings(), []shape{
 	{"liw-div+direct", func(b *builder) []*node {
 		// a wrapped nested list next to a directly nested one, both orders
 		a := liWith(b, 1, false, el("div", el("ul", wli(b))), el("ul", li(b, 2, nil)))
-		c := liWith(b, 1, false, el("ol", li(b, 2, nil)), el("div", el("ul", wli(b))))
+		fl := wli(b)
+		fl.floating = true
+		c := liWith(b, 1, false, el("ol", li(b, 2, nil)), el("div", el("ul", fl)))
 		return one(el("ul", a, c))
 	}},
 	{"liw-only", func(b *builder) []*node {
